@@ -1,9 +1,11 @@
 (* C18 - LaTeX en/decoding touches only text values, round-trips, and contains errors: THE WRAPPER
    (_PyStringTransformerMiddleware) for an ARBITRARY converter [conv : str -> str * str] (value, error message).
    Only statements here; every proof is `exact <lemma>` (Proofs/LatexProofs.v).
-   PARTIAL CLAIM: pylatexenc and the rules configured in latex_encoding.py are not modelled.  The round-trip clause of
-   the property is proved only conditionally (C18_roundtrip_conditional); its hypothesis is validated by testing
-   (harness/props/c18.py, stream `roundtrip`), with known findings K5 and K6. *)
+   PARTIAL CLAIM: pylatexenc (its conversion table, its LaTeX parser) is not modelled.  The round-trip clause of the property is
+   proved only conditionally (C18_roundtrip_conditional); its hypothesis is validated by testing (harness/props/c18.py, stream
+   `roundtrip`), with known findings K5, K6 and K12.  The ENCODER RULES that latex_encoding.py configures (keep_math,
+   enclose_urls, then defaults) ARE modelled (Model/LatexRules.v, compared with LatexEncodingMiddleware on every run, op 121);
+   the theorems about them are at the end of this file - among them the root causes of K5 and K6. *)
 From Coq Require Import List NArith ZArith Bool String.
 From BP Require Import Base.Chars Model.Blocks Model.LibAdd Model.LatexWrap Spec.C18 Proofs.LibAddProofs Proofs.LatexProofs.
 Import ListNotations.
@@ -117,3 +119,39 @@ Proof.
   - vm_compute. reflexivity.
   - vm_compute. discriminate.
 Qed.
+
+(* ------------------------------------------------------------------ the encoder rules of latex_encoding.py
+   (Model/LatexRules.v; [enc_char] = pylatexenc's default conversion of one character, arbitrary here) *)
+From BP Require Import Model.LatexRules Proofs.LatexRulesProofs.
+
+(* both rules off: the default conversion, character by character *)
+Theorem C18_rules_off : forall enc_char s, encode enc_char false false s = flat_map enc_char s.
+Proof. exact encode_no_rules. Qed.
+Print Assumptions C18_rules_off.
+
+(* keep_math is greedy (root cause of K5): a text without line break that starts with a dollar and ends in a dollar not preceded
+   by a backslash is copied WHOLE, whatever stands between the first and the last dollar - other spans, `&`, `%` ... *)
+Theorem C18_rules_keep_math_first_to_last_dollar : forall enc_char eu u x,
+  (forall c, In c u -> ceq c c_nl = false) -> ceq x c_bs = false ->
+  encode enc_char true eu (c_dollar :: u ++ [x; c_dollar]) = c_dollar :: u ++ [x; c_dollar].
+Proof. exact encode_keeps_first_to_last_dollar. Qed.
+Print Assumptions C18_rules_keep_math_first_to_last_dollar.
+
+(* enclose_urls (root cause of K6): a matched URL is a prefix of the remaining text, and it is written between \url{ and }
+   exactly as it is - no character of it is converted - after which conversion resumes behind it *)
+Theorem C18_rules_url_raw : forall enc_char km s m pb, url_match s = Some m ->
+  (exists rest, s = m ++ rest)
+  /\ enc_go enc_char km true pb 0 s
+     = url_open ++ m ++ [c_rb] ++ enc_go enc_char km true (pb_after pb (List.length m) s) 0 (skipn (List.length m) s).
+Proof. intros enc_char km s m pb H. split; [exact (url_match_prefix s m H) | exact (encode_url_raw enc_char km s m pb H)]. Qed.
+Print Assumptions C18_rules_url_raw.
+
+(* K5 and K6 on their witnesses, with the identity as default conversion: "$a$ & $b$" is kept whole (the `&` between the two
+   spans is not converted); "http://a.b/c%20d x" becomes \url{http://a.b/c%20d} x with the `%` raw inside *)
+Example C18_rules_examples :
+  let s := map asc [36; 97; 36; 32; 38; 32; 36; 98; 36]%N in
+  let u := map asc [104; 116; 116; 112; 58; 47; 47; 97; 46; 98; 47; 99; 37; 50; 48; 100; 32; 120]%N in
+  encode (fun c => if ceq c (asc 38) then [c_bs; c] else [c]) true true s = s
+  /\ encode (fun c => if ceq c c_pct then [c_bs; c] else [c]) true true u
+     = url_open ++ firstn 16 u ++ [c_rb] ++ skipn 16 u.
+Proof. vm_compute. split; reflexivity. Qed.
